@@ -256,6 +256,7 @@ Definition dispatch (p : list nkind) (simple_ok : bool) : decision :=
 Inductive candsrc :=
 | GFiles (dir : bytes) (listing : option (list entry))  (* the directory the harness listed, and what it holds *)
 | GFixed (items : list rawitem)                          (* a fixed Config.ArgGenerator *)
+| GVars (names : list bytes)     (* variable completion: the names in scope (global, builtin, defined in the code) *)
 | GNotModelled.
 
 (* the tree at the dot, as observed *)
@@ -266,7 +267,9 @@ Record treeobs := mkTree {
   t_upto : nat;                   (* To of the Indexing on the path *)
   t_leaf_type : ptype;            (* type of the leaf primary *)
   t_cfrom : nat; t_cto : nat;     (* Range() of the compound *)
-  t_head : option bytes }.        (* PurelyEvalCompound(form.Head) when it is a simple compound *)
+  t_head : option bytes;          (* PurelyEvalCompound(form.Head) when it is a simple compound *)
+  t_leaf_from : nat;              (* Range().From of the leaf *)
+  t_leaf_val : bytes }.           (* Primary.Value of the leaf when it is a primary *)
 
 Inductive rname := NArgument | NRedir | NCommand | NVariable | NIndex.
 Definition rname_eqb (a b : rname) : bool :=
@@ -289,10 +292,33 @@ Definition special_head (h : option bytes) : bool :=
   | None => false
   end.
 
+(* eval.SplitSigil and eval.SplitIncompleteQNameNs *)
+Definition cCOLON : N := 58.
+Definition split_sigil (s : bytes) : bytes * bytes :=
+  match s with
+  | c :: r => if c =? cAT then ([c], r) else ([], s)
+  | [] => ([], [])
+  end.
+Fixpoint split_ns (s : bytes) : bytes * bytes :=
+  match s with
+  | [] => ([], [])
+  | c :: r =>
+    let '(d, f) := split_ns r in
+    if c =? cCOLON then (c :: d, f)
+    else match d with [] => ([], c :: f) | _ => (c :: d, f) end
+  end.
+
+(* completeVariable: every name in scope, quoted as a variable name and then
+   inserted verbatim (noQuoteItem); e: and E: when no namespace was typed *)
+Definition var_items (ns : bytes) (names : list bytes) : list rawitem :=
+  map (fun n => RNoQuote (QuoteVariableName is_print n)) names
+  ++ match ns with [] => [RNoQuote [101; 58]; RNoQuote [69; 58]] | _ => [] end.
+
 Definition candidates (src : candsrc) (is_redir : bool) (seed : bytes) : option (list rawitem) :=
   match src with
   | GFiles dir l => if bytes_eqb dir (dir_to_read seed) then Some (gen_file_names l seed) else None
   | GFixed items => if is_redir then None else Some items
+  | GVars _ => None
   | GNotModelled => None
   end.
 
@@ -307,7 +333,18 @@ Definition complete_model (homes : list (bytes * bytes)) (t : treeobs) (src : ca
     end in
   match dispatch (t_path t) simple_ok with
   | DCommand => MAbstain (Some NCommand)
-  | DVariable => MAbstain (Some NVariable)
+  | DVariable =>
+    match src with
+    | GVars names =>
+      let '(sigil, qname) := split_sigil (t_leaf_val t) in
+      let '(ns, nseed) := split_ns qname in
+      (* the names of the global scope are modelled; other namespaces are left to the tie *)
+      if bytes_eqb ns [] || bytes_eqb ns [cCOLON] then
+        MRes (mkRes NVariable (t_leaf_from t + 1 + length sigil + length ns) (t_leaf_to t)
+                    (pipeline isort_items nseed TBare (var_items ns names))) nseed TBare
+      else MAbstain (Some NVariable)
+    | _ => MAbstain (Some NVariable)
+    end
   | DIndexMaybe => MAbstain None
   | DNone => MNone
   | DRedirNew => run NRedir true [] TBare (t_leaf_to t) (t_leaf_to t)
@@ -425,6 +462,7 @@ Definition offered_ok (src : candsrc) (ty : typed) (items : list citem) : bool :
   | GFixed its =>
     let ex := expected_fixed its (ty_value ty) in
     subset_bytes shows ex && subset_bytes ex shows
+  | GVars _ => true
   | GNotModelled => true
   end.
 
@@ -529,7 +567,10 @@ Definition judge1 (c : case) : N :=
     | MRes mr seed q, Some r =>
       result_eqb mr r
       && bytes_eqb seed (ty_value (c_typed c)) && ptype_eqb q (ty_style (c_typed c))
-      && all_obs_match pr (c_buf c) (r_from r) (r_to r) (r_items r) (c_obs c)
+      && match r_name r with
+         | NVariable => true     (* the observation of a variable item is the variable's name, see var_items_ok *)
+         | _ => all_obs_match pr (c_buf c) (r_from r) (r_to r) (r_items r) (c_obs c)
+         end
     | MRes _ _ _, None => false
     end in
   code oracle_ok corr_ok.
